@@ -13,6 +13,7 @@ import (
 	"net/http"
 	"os"
 	"os/exec"
+	"runtime"
 	"runtime/debug"
 	"strings"
 	"sync"
@@ -90,8 +91,13 @@ func cmdWireChild(_ []string) {
 	}()
 	b, _ := json.Marshal(ports)
 	fmt.Println("PORTS " + string(b))
-	// exit when the parent goes away
-	_, _ = io.Copy(io.Discard, os.Stdin)
+	// "g" on stdin: report the number of goroutines; exit when the parent goes away
+	in := bufio.NewScanner(os.Stdin)
+	for in.Scan() {
+		if in.Text() == "g" {
+			fmt.Printf("GOROUTINES %d\n", runtime.NumGoroutine())
+		}
+	}
 	os.Exit(0)
 }
 
@@ -420,6 +426,7 @@ type wireChild struct {
 	stdin io.WriteCloser
 	good  *framedConn
 	gseq  int // sequence number of the well-behaved peers' own periodic updates
+	gor   chan int
 	goodu *net.UDPConn // a second well-behaved peer, on the UDP listener (one receive goroutine serves all UDP peers)
 	uin   chan []byte
 }
@@ -437,7 +444,7 @@ func startWireChild() (*wireChild, error) {
 	if err := cmd.Start(); err != nil {
 		return nil, err
 	}
-	wc := &wireChild{cmd: cmd, done: make(chan struct{}), stdin: stdin}
+	wc := &wireChild{cmd: cmd, done: make(chan struct{}), stdin: stdin, gor: make(chan int, 4)}
 	sc := bufio.NewScanner(stdout)
 	sc.Buffer(make([]byte, 1<<20), 1<<20)
 	got := make(chan bool, 1)
@@ -446,6 +453,14 @@ func startWireChild() (*wireChild, error) {
 			if strings.HasPrefix(sc.Text(), "PORTS ") {
 				_ = json.Unmarshal([]byte(sc.Text()[6:]), &wc.ports)
 				got <- true
+			}
+			if strings.HasPrefix(sc.Text(), "GOROUTINES ") {
+				var n int
+				_, _ = fmt.Sscanf(sc.Text(), "GOROUTINES %d", &n)
+				select {
+				case wc.gor <- n:
+				default:
+				}
 			}
 		}
 	}()
@@ -588,6 +603,22 @@ func (wc *wireChild) probeUDP(timeout time.Duration) bool {
 	}
 }
 
+// goroutines asks the child for its current number of goroutines (-1: no answer).
+func (wc *wireChild) goroutines() int {
+	for len(wc.gor) > 0 {
+		<-wc.gor
+	}
+	if _, err := io.WriteString(wc.stdin, "g\n"); err != nil {
+		return -1
+	}
+	select {
+	case n := <-wc.gor:
+		return n
+	case <-time.After(5 * time.Second):
+		return -1
+	}
+}
+
 func (wc *wireChild) stop() {
 	if wc.goodu != nil {
 		_ = wc.goodu.Close()
@@ -646,6 +677,7 @@ func cmdWire(args []string) {
 	distinct := map[string]bool{}
 	sess := 0
 	restarts := 0
+	sessSince := 0
 	type played struct {
 		v    wireVec
 		tr   string
@@ -658,6 +690,7 @@ func cmdWire(args []string) {
 		for _, tr := range strings.Split(*transports, ",") {
 			for k := 0; k < *inst; k++ {
 				sess++
+				sessSince++
 				me := fmt.Sprintf("bad%d", sess)
 				c, err := dialTransport(tr, wc.ports)
 				if err != nil {
@@ -790,6 +823,11 @@ func cmdWire(args []string) {
 		}
 	}
 done:
+	if wc != nil && wc.alive() {
+		time.Sleep(1500 * time.Millisecond) // Recv time-outs of ended sessions are 1 s
+		res.Counters["goroutines_at_end"] = wc.goroutines()
+		res.Counters["sessions_since_last_restart"] = sessSince
+	}
 	res.Distinct = len(distinct)
 	res.count("restarts")
 	res.Counters["restarts"] = restarts
